@@ -18,6 +18,7 @@ import (
 	"slices"
 	"strconv"
 	"strings"
+	"sync/atomic"
 	"testing"
 	"time"
 
@@ -395,9 +396,10 @@ func probeStall(pid, port int) stallInfo {
 // ---- one connection -----------------------------------------------------------
 
 type env struct {
-	m     *mon.M
-	lists *algLists
-	mt    *material
+	stalls atomic.Int32
+	m      *mon.M
+	lists  *algLists
+	mt     *material
 }
 
 func sizeClass(n int) string {
@@ -422,7 +424,7 @@ func sizeClass(n int) string {
 
 func failStage(l sshLog, log string) string {
 	low := strings.ToLower(log)
-	packet := strings.Contains(low, "bad packet length") || strings.Contains(low, "corrupted mac") || strings.Contains(low, "message authentication code incorrect") || strings.Contains(low, "padding error") || strings.Contains(low, "invalid format")
+	packet := strings.Contains(low, "bad packet length") || strings.Contains(low, "corrupted mac") || strings.Contains(low, "message authentication code incorrect") || strings.Contains(low, "padding error")
 	switch {
 	case l.NewKeysRx == 0:
 		switch {
@@ -432,6 +434,8 @@ func failStage(l sshLog, log string) string {
 			return "hostkey-check"
 		case strings.Contains(low, "no matching") || strings.Contains(low, "unable to negotiate"):
 			return "negotiation"
+		case strings.Contains(low, "invalid format"):
+			return "kex-reply-invalid-format"
 		case packet:
 			return "kex-packet"
 		}
@@ -460,7 +464,7 @@ func (e *env) runOpenSSH(p planItem, i int64, r *rand.Rand) {
 	}
 	port := srv.port()
 	var stall *stallInfo
-	res := runSSH(c.args(e.mt, port), c.Payload, sshWatchdog, func(pid int) { s := probeStall(pid, port); stall = &s })
+	res := runSSH(c.args(e.mt, port), c.Payload, e.watchdog(sshWatchdog), func(pid int) { s := probeStall(pid, port); stall = &s })
 	finished := true
 	select {
 	case <-srv.done:
@@ -494,6 +498,7 @@ func (e *env) runOpenSSH(p planItem, i int64, r *rand.Rand) {
 	if res.TimedOut {
 		m.Count("openssh_watchdog", 1)
 		if stall != nil && stall.Frozen {
+			e.stalls.Add(1)
 			m.Eval()
 			m.Violation("stall:openssh-client-vs-go-server:"+stall.Where+":"+p.dim, witness(stall.Detail))
 			return
